@@ -51,6 +51,8 @@ def check_c14(case, stats):
   if case['init'] == 'array' and case['aseed'] % 2 == 0:
     init = np.asfortranarray(init)          # same matrix, column-major memory layout
   tol = 10.0 ** case['logtol']
+  if case['diagonal'] and case['aseed'] % 4 == 0:
+    tol = [1.0, 10.0][case['aseed'] % 8 // 4]        # legal but unusual: the Newton loop does not run at all
   params = dict(init=init, max_iter=case['max_iter'], max_proj=2000, tol=tol, diagonal=case['diagonal'],
                 diagonal_c=10.0 ** case['logc'], random_state=case['seed'])
   if name == 'MMC':
